@@ -248,6 +248,83 @@ func extractC19(f *facts) {
 	sb.WriteString("]")
 	f.def("c19FlagTable", "List (List Nat × List Nat × List Nat)", sb.String())
 
+	// --- plumbing in attack(): what each parsed value is handed to ---
+	var hdrInit, targeterHdrArgs, optionArgs []string
+	if fd := funcDecl(atk, "", "attack"); fd != nil {
+		ast.Inspect(fd, func(n ast.Node) bool {
+			switch x := n.(type) {
+			case *ast.ValueSpec:
+				for i, nm := range x.Names {
+					if (nm.Name == "hdr" || nm.Name == "proxyHdr") && i < len(x.Values) {
+						hdrInit = append(hdrInit, nm.Name+" = "+c19Src(f, x.Values[i]))
+					}
+				}
+			case *ast.AssignStmt:
+				for i, l := range x.Lhs {
+					if id, ok := l.(*ast.Ident); ok && (id.Name == "hdr" || id.Name == "proxyHdr") && i < len(x.Rhs) {
+						hdrInit = append(hdrInit, id.Name+" "+x.Tok.String()+" "+c19Src(f, x.Rhs[i]))
+					}
+				}
+			case *ast.CallExpr:
+				se, ok := x.Fun.(*ast.SelectorExpr)
+				if !ok {
+					return true
+				}
+				switch se.Sel.Name {
+				case "NewJSONTargeter", "NewHTTPTargeter":
+					if len(x.Args) == 3 {
+						targeterHdrArgs = append(targeterHdrArgs, se.Sel.Name+"("+c19Src(f, x.Args[2])+")")
+					}
+				case "MaxWorkers", "MaxBody", "ProxyHeader", "DNSCaching", "ConnectTo":
+					if len(x.Args) == 1 {
+						optionArgs = append(optionArgs, se.Sel.Name+"("+c19Src(f, x.Args[0])+")")
+					}
+				}
+			}
+			return true
+		})
+	}
+	f.def("c19HeaderVars", "List (List Nat)", leanBytesList(hdrInit))
+	f.def("c19TargeterHeaderArgs", "List (List Nat)", leanBytesList(targeterHdrArgs))
+	f.def("c19OptionArgs", "List (List Nat)", leanBytesList(optionArgs))
+
+	// --- defaults: the keys of the attackOpts literal in attackCmd and the value of maxBody ---
+	var litKeys []string
+	maxBodyDefault := ""
+	if fd := funcDecl(atk, "", "attackCmd"); fd != nil {
+		ast.Inspect(fd, func(n ast.Node) bool {
+			cl, ok := n.(*ast.CompositeLit)
+			if !ok || c19Src(f, cl.Type) != "attackOpts" {
+				return true
+			}
+			for _, el := range cl.Elts {
+				if kv, ok := el.(*ast.KeyValueExpr); ok {
+					k := c19Src(f, kv.Key)
+					litKeys = append(litKeys, k)
+					if k == "maxBody" {
+						maxBodyDefault = c19Src(f, kv.Value)
+					}
+				}
+			}
+			return false
+		})
+	}
+	libMaxBody := ""
+	if lib != nil {
+		ast.Inspect(lib, func(n ast.Node) bool {
+			if vs, ok := n.(*ast.ValueSpec); ok {
+				for i, nm := range vs.Names {
+					if nm.Name == "DefaultMaxBody" && i < len(vs.Values) {
+						libMaxBody = c19Src(f, vs.Values[i])
+					}
+				}
+			}
+			return true
+		})
+	}
+	f.def("c19OptsLiteralKeys", "List (List Nat)", leanBytesList(litKeys))
+	f.def("c19DefaultMaxBodyExpr", "List (List Nat)", leanBytesList([]string{maxBodyDefault, libMaxBody}))
+
 	// --- rateFlag.Set: the literals ---
 	var words, units []string
 	var wordBodies [][]string
